@@ -34,8 +34,13 @@ func TestMain(m *testing.M) {
 const gmax = 12
 
 var upstreams = []string{"alpha", "alpha-2", "gamma"}
+
 // identities and upstream names that are prefixes / extensions of each other, and one that is not a valid label value
-var instances = []string{"gw-a", "gw-b", "gw-a-1", "gw", "10.0.0.1:443"}
+var instancePool = []string{"gw-a", "gw-b", "gw-a-1", "gw", "10.0.0.1:443",
+	// identities that differ only in their tail beyond 63 characters (a long pod FQDN with a per-incarnation suffix).
+	// Pairs that differ only in ':' versus '-' are left out: the name of an instance's condition object is its identity
+	// with ':' replaced by '-' by definition, such a pair is one instance to the server
+	"kube-gateway-0.kube-gateway.kube-system.svc.cluster.local.example:6443-aaaa", "kube-gateway-0.kube-gateway.kube-system.svc.cluster.local.example:6443-bbbb"}
 
 func cluster(name string) *proxyv1alpha1.UpstreamCluster {
 	// token-bucket schemas sit next to the in-flight ones: the cleanup walks all flow controls of an upstream
@@ -60,8 +65,17 @@ type instModel struct {
 }
 
 func TestPropReclaim(t *testing.T) {
-	sub := stats.NewSub("reclaim-histories", "rapid state machine on the real limiter (2 shards, local / API-backed store, 3 upstreams and 5 instance identities, some of which are prefixes / extensions of each other, one not a valid label value): ops heartbeat, report (allocate; one in three reports of an instance the server has no heartbeat of comes without one: the instance is on record but not alive), acquire (count strategy), go silent, cleanup pass, comeback with the same identity; oracle after every pass: no condition and no in-flight count of a silent instance remains anywhere, running total == per-instance sum, everything of instances with a fresh heartbeat is unchanged; after the next survivor report the recorded sum excludes the dead instance and the freed in-flight capacity can be taken by a survivor; non-trivial = a pass reclaims >=1 instance that had state while >=1 other instance with state stays, or an instance comes back after being reclaimed; distinct by FNV-64 of the op trace")
+	sub := stats.NewSub("reclaim-histories", "rapid state machine on the real limiter (2 shards, local / API-backed store, 3 upstreams; 4 instance identities per history from a pool of 7, always including a related pair: one a prefix of the other, or equal in their first 63 characters; one identity is not a valid label value): ops heartbeat, report (allocate; one in three reports of an instance the server has no heartbeat of comes without one: the instance is on record but not alive), acquire (count strategy), go silent, cleanup pass, comeback with the same identity; oracle after every pass: no condition and no in-flight count of a silent instance remains anywhere, running total == per-instance sum, everything of instances with a fresh heartbeat is unchanged; after the next survivor report the recorded sum excludes the dead instance and the freed in-flight capacity can be taken by a survivor; non-trivial = a pass reclaims >=1 instance that had state while >=1 other instance with state stays, or an instance comes back after being reclaimed; distinct by FNV-64 of the op trace")
 	stats.Check(t, stats.N(4000, 20000), func(t *rapid.T) {
+		// four identities per history: a pair of related ones (prefix / extension, or equal in their first 63 characters) and two more
+		pairs := [][2]string{{"gw-a", "gw-a-1"}, {"gw", "gw-b"}, {"10.0.0.1:443", "gw-a"}, {instancePool[5], instancePool[6]}, {instancePool[5], instancePool[6]}}
+		pr := rapid.SampledFrom(pairs).Draw(t, "relatedIdentities")
+		instances := []string{pr[0], pr[1]}
+		for _, n := range rapid.Permutation(instancePool).Draw(t, "otherIdentities") {
+			if len(instances) < 4 && n != pr[0] && n != pr[1] {
+				instances = append(instances, n)
+			}
+		}
 		kind := rapid.SampledFrom([]string{"local", "k8s"}).Draw(t, "store")
 		box := limbox.New(kind, 2, "srv")
 		box.LeadAll()
